@@ -318,7 +318,8 @@ def run(c):
             return ib, transform_once(texe, be, docs[i]['xml'], os.path.join(work, 'pre'), t, [], {}, timeout=20)[0]
         slow = set()
         with concurrent.futures.ThreadPoolExecutor(max_workers=NCPU) as ex:
-            for (i, be), rc in ex.map(pre_one, [(i, be) for i in range(len(docs)) for be in BACKENDS if be not in docs[i]['skip']]):
+            for (i, be), rc in ex.map(pre_one, [(i, be) for i in range(len(docs)) for be in BACKENDS if be not in docs[i]['skip']
+                                                and (xml_depth(docs[i]['xml']) > 10 or docs[i]['cls'].startswith('corpus'))]):
                 if rc == 'TIMEOUT':
                     slow.add(i)
                 evaluations += 1
@@ -562,7 +563,7 @@ def trie_case(r):
 def in_process_correspondence(c, vdriver, vmodel, docs, bits, work, quick):
     failures = []
     sample = [(i, d) for i, d in enumerate(docs) if d['has_ids'] and d['dm'] == 'promela' and len(d['xml']) < 60000]
-    sample = sample[:120 if quick else 1200]
+    sample = sample[:120 if quick else 800]
     lines = []
     meta = []
     for i, d in sample:
@@ -683,7 +684,7 @@ def trace_checks(c, vdriver, envs, work, quick, V):
     # (a) the same `run` lines in separate driver processes, one per environment
     import chart_common as CC
     cases = []
-    n = 150 if quick else 2000
+    n = 150 if quick else 1200
     for _ in range(n):
         dm = rng.choice(['lua', 'promela', 'null'])
         tree = G.rand_chart(rng, only_in=(dm == 'null'))
@@ -721,7 +722,7 @@ def trace_checks(c, vdriver, envs, work, quick, V):
     # (b) cache files: cold, warm (same document), stale (another document at the same URL), corrupt
     corpus = json.load(open(os.path.join(ROOT, 'corpus', 'c20.json')))
     pairs = [(p['a'], p['b']) for p in corpus['cache_pairs']]
-    npairs = 40 if quick else 400
+    npairs = 40 if quick else 250
     while len(pairs) < npairs:
         dm = rng.choice(['lua', 'null', 'promela'])
         nprop = rng.randint(2, 6)
